@@ -30,6 +30,9 @@ type Job struct {
 	// BudgetS is the wall-clock budget of this job in seconds (0 = none).
 	BudgetS int `json:"budget_s,omitempty"`
 	Race    bool `json:"race,omitempty"` // run in the -race binary
+	// CrashIsViolation: the server process must keep running; a worker that
+	// dies (fatal error, out of memory) is a finding, not an engine error.
+	CrashIsViolation bool `json:"crash_is_violation,omitempty"`
 	Verbose bool `json:"verbose,omitempty"`
 }
 
@@ -447,6 +450,21 @@ func runJobProcess(exe string, j *Job) *Result {
 		}
 	}
 	werr := cmd.Wait()
+	if res == nil && j.CrashIsViolation {
+		tail := stderr.String()
+		class := "process-died"
+		for _, l := range strings.Split(tail, "\n") {
+			if strings.HasPrefix(l, "fatal error:") || strings.HasPrefix(l, "panic:") {
+				class = strings.TrimSpace(l)
+				break
+			}
+		}
+		if len(tail) > 4000 {
+			tail = tail[:4000]
+		}
+		return &Result{Job: j.Name, Exhaustive: false, CapHit: "worker process died", States: 1, Transitions: 1,
+			Violations: []Violation{{Prop: j.Prop, Scenario: j.Name, Oracle: "process-crash", Detail: class, Info: "the process running the server died: " + tail}}}
+	}
 	if res == nil {
 		tail := stderr.String()
 		if len(tail) > 6000 {
